@@ -17,7 +17,7 @@ where
         usize::try_from(n).map_err(|e| io::Error::new(io::ErrorKind::InvalidData, e))
     })?;
 
-    let mut reference_sequences = Vec::with_capacity(n_ref);
+    let mut reference_sequences = Vec::new();
 
     for _ in 0..n_ref {
         let reference_sequence = read_reference_sequence(reader, depth).await?;
@@ -36,4 +36,24 @@ where
 {
     let (bins, index, metadata) = read_bins(reader, depth).await?;
     Ok(ReferenceSequence::new(bins, index, metadata))
+}
+
+#[cfg(test)]
+mod tests {
+    use super::*;
+
+    #[tokio::test]
+    async fn test_read_reference_sequences_with_an_unsatisfiable_count() {
+        const DEPTH: u8 = 5;
+
+        let src = [
+            0xff, 0xff, 0xff, 0x7f, // n_ref = 2147483647
+            0xff, 0xff, 0xff, 0x7f, // ref[0].n_bin = 2147483647
+        ];
+
+        assert!(matches!(
+            read_reference_sequences(&mut &src[..], DEPTH).await,
+            Err(e) if e.kind() == io::ErrorKind::UnexpectedEof
+        ));
+    }
 }
